@@ -451,11 +451,10 @@ def r_map_shape(e, R):
     cutn = [n for n in g.nodes if n.kind == "stmt" and n.ast is cut]
     rtn = lambda n: n.kind == "stmt" and isinstance(n.ast, ast.Return)
     for cn in cutn:
-        okE = SC.Facts([(SC.name(cv), "T")]).edge_ok()
-        esc = g.find_path(cn, lambda n: n is g.exit or rtn(n) or (n in cutn), avoid=yn, use_exc=False, edge_ok=okE)
-        okF = SC.Facts([(SC.name(cv), "F")]).edge_ok()
-        bad = g.find_path(cn, yn, use_exc=False, edge_ok=okF, avoid=lambda n: n in cutn)
-        loopback = g.find_path(cn, lambda n: n in cutn, use_exc=False, edge_ok=okF)
+        esc = SC.Facts([(SC.name(cv), "T")]).find(g, cn, lambda n: n is g.exit or rtn(n) or (n in cutn), avoid=yn, use_exc=False)
+        FF = SC.Facts([(SC.name(cv), "F")])
+        bad = FF.find(g, cn, yn, use_exc=False, avoid=lambda n: n in cutn)
+        loopback = FF.find(g, cn, lambda n: n in cutn, use_exc=False)
         R.check(esc is None and bad is None and loopback is None, "R-MAP-SHAPE", f"{cf.short}: a non-empty chunk is always yielded; the first empty one ends the generator", cf.short,
                 f"if not {cv}: return; yield {cv}", "the chunker stops before the iterables are exhausted (results missing), yields empty chunks forever, or never terminates",
                 e.loc(cf, cut))
